@@ -260,13 +260,11 @@ func propC13(c *Ctx, r *Report) {
 	r.floor("unmark.remarked", 1)
 	r.Clauses = append(r.Clauses, "uses other than loads (E94): a pass function that judges each local by a census of its loads only (a loop over the expressions that skips everything but ExprLoad) also looks at the other users of the local's address - a second, unfiltered loop that resolves expressions to locals, or the call statements; otherwise the stores in front of f(&x) are removed")
 	c.runLoadOnlyCensus(r, "census.loadonly", inPkgs("dxil/internal/passes", "ir"))
-	r.floor("census.loadonly", 1)
 	r.Clauses = append(r.Clauses, "propagation repeated after unmarking (E81b): every propagation step over the liveness marks that a pass driver runs before it clears marks (values stored into live locals, arguments of calls with a live result) runs again after the clearing - a store into a live local stays but is not a root the statement re-marker looks at")
 	c.runUnmarkPropagatedAgain(r, "unmark.propagatedagain", inPkgs("dxil/internal/passes", "ir"))
-	r.floor("unmark.propagatedagain", 2)
+	r.floor("unmark.propagatedagain", 1)
 	r.Clauses = append(r.Clauses, "initialisers survive a split (E99): a pass that builds new local variables and takes their initialiser from the original's only when that has one expression kind either handles the other kinds (else branch) or the package looks at LocalVariable.Init where it selects its candidates")
 	c.runInitKept(r, "split.initkept", inPkgs("dxil/internal/passes", "ir"))
-	r.floor("split.initkept", 1)
 	r.Clauses = append(r.Clauses, sharedAddrClause)
 	c.runSharedAddr(r, "ptr.sharedaddr", inPkgs("ir", "dxil"))
 	r.Clauses = append(r.Clauses, shallowWalkerClause)
